@@ -108,6 +108,11 @@ def curated():
     a(make('pl_only_ch', [P('p', 'ch')], 'ae'))
     a(make('fx_only_ch', [P('f', 'ch')], 'none'))
     a(make('fx_only_i32', [P('f', 'i32', 4)], 'ae'))
+    # FixedSize of element types whose size is not a power of two (12, 5, 9 bytes) between aligned parameters: the
+    # alignment known at the end of the span is that of the lowest set bit of sizeof(T)
+    a(make('fx_pod_al', [P('p', 'u64', 8), P('f', 'pod12'), P('p', 'f64', 8)], 'none'))
+    a(make('fx_pod5_al', [P('f', 'pod5', 4), P('p', 'u32', 4), P('f', 'pod12', 8), P('p', 'u16', 2)], 'ae'))
+    a(make('fx_trk_al', [P('f', 'trk12', 8), P('p', 'u32', 8), P('f', 'trk9'), P('p', 'u64', 4)], 'noned'))
     a(make('fx_ptr', [P('p', 'ptr'), P('f', 'ptr')], 'none'))
     a(make('fx_pad_u8', [P('p', 'u8'), P('f', 'u16', 2), P('p', 'u8', 4)], 'all'))
     # trailing-alignment propagation across a FixedSize, an unaligned plain parameter and an aligned one
@@ -221,7 +226,7 @@ def layout_generated(seed, n):
     layout properties C02-C05 (both tiers)."""
     out = []
     i = 0
-    types = ['u8', 'u16', 'u32', 'u64', 'f32', 'f64', 'by']
+    types = ['u8', 'u16', 'u32', 'u64', 'f32', 'f64', 'by', 'pod12', 'pod5']
     counts = ['u8', 'u16', 'u32', 'sz']
     aligns = [0, 0, 0, 2, 4, 8, 16]
     while len(out) < n:
